@@ -34,6 +34,11 @@ type deferred struct {
 	free []Val
 }
 
+type stopPoint struct {
+	b *ssa.BasicBlock
+	f func(*State)
+}
+
 type State struct {
 	cells    map[*Cell]Val
 	regs     map[ssa.Value]Val
@@ -49,6 +54,9 @@ type State struct {
 	recovered bool
 	depth    int
 	caseLit  *Term
+	ghosts   map[string]*Term
+	stopAt   []stopPoint
+	phiDone  *ssa.BasicBlock
 	ghostOther bool // a hypothetical non-ErrNaN panic is in flight (handler check)
 }
 
@@ -68,6 +76,14 @@ func (s *State) clone() *State {
 		recovered: s.recovered,
 		depth:   s.depth,
 		ghostOther: s.ghostOther,
+		stopAt:  s.stopAt[:len(s.stopAt):len(s.stopAt)],
+		phiDone: s.phiDone,
+	}
+	if len(s.ghosts) > 0 {
+		n.ghosts = make(map[string]*Term, len(s.ghosts))
+		for k, v := range s.ghosts {
+			n.ghosts[k] = v
+		}
 	}
 	for k, v := range s.cells {
 		n.cells[k] = v
